@@ -39,6 +39,8 @@ pub fn sampling_of(rate_exp: Option<u8>, words: &[u64]) -> (Sampling, Option<u64
                 Some((1.0 / rate as f64).floor() as u64),
             )
         }
+        // 53..=60: a sampling formatter driven through plain Format::format (no rate): unsampled
+        Some(53..=60) => (Sampling::SampledNoRate, None),
         Some(k) if k <= 52 => (
             Sampling::Rate {
                 rate_bits: (2f32).powi(-(k as i32)).to_bits(),
@@ -77,6 +79,7 @@ pub fn arb_rate_exp() -> impl Strategy<Value = Option<u8>> {
         2 => (4u8..=52).prop_map(Some),
         1 => Just(Some(32u8)),
         1 => Just(Some(100u8)),
+        1 => (53u8..=60).prop_map(Some),
     ]
 }
 
